@@ -54,7 +54,9 @@ def oracle(p):
             known = any(s[0] == sid for s in prev[8])
             if not known:
                 room = counts(prev, mine) + 1 <= remote_mcs(prev)
-                if not room and _conn.err_name(parts) != 'TooManyStreamsError':
+                # a client is refused with TooManyStreamsError; a server cannot open a stream this way at all (fix 12650a7):
+                # it is refused with the lookup error whatever the limit
+                if not room and (_conn.err_name(parts) != 'TooManyStreamsError' if p['cfg']['client'] else _conn.ok(parts)):
                     bad.append({'rule': 'a stream was opened (or another error reported) beyond the peer limit', 'step': i,
                                 'detail': {'open': counts(prev, mine), 'limit': remote_mcs(prev), 'outcome': parts[0]}})
                 if room and _conn.err_name(parts) == 'TooManyStreamsError':
